@@ -64,3 +64,7 @@ func crashNow()
 // in-memory file system is used; a fresh temporary directory natively); scratchDone removes it.
 func scratchDir() string
 func scratchDone(dir string)
+
+// symClock(true) makes the clock symbolic: every time.Now() is an arbitrary instant not
+// earlier than the previous one, so the solver decides where deadlines fall.
+func symClock(on bool)
